@@ -33,6 +33,9 @@ ROUND6_NOT_BY_OWN_AT_FIRST = {"C01_K", "C02_K", "C02_L", "C03_L", "C04_K", "C04_
 # round 7 (variants M, N): the brief asked for changed VALUES (arguments, defaults, callees, constants, copies), not edited conditions
 ROUND7_MISSED_AT_FIRST = {"C01_N", "C13_M", "C13_N", "C14_M", "C15_M", "C15_N", "C17_M", "C18_M", "C20_M"}
 
+# round 8 (variants O, P): any kind of edit; first run after the value rows existed. Not reported by any check at first:
+ROUND8_MISSED_AT_FIRST = {"C16_O", "C18_P", "C07_O", "C10_O"}
+
 def run(d):
     patch = os.path.join(d, "patch.diff")
     t = tempfile.mkdtemp(prefix="verif_tree."); o = tempfile.mkdtemp(prefix="verif_out.")
@@ -61,15 +64,15 @@ with ThreadPoolExecutor(8) as ex:
         sect = ""
         if m:
             rest = notes[m.start():]
-            other = {"A": "B", "B": "A", "C": "D", "D": "C", "E": "F", "F": "E", "G": "H", "H": "G", "I": "J", "J": "I", "K": "L", "L": "K", "M": "N", "N": "M"}[var]
+            other = {"A": "B", "B": "A", "C": "D", "D": "C", "E": "F", "F": "E", "G": "H", "H": "G", "I": "J", "J": "I", "K": "L", "L": "K", "M": "N", "N": "M", "O": "P", "P": "O"}[var]
             m2 = re.search(r"(?im)^#+.*variant\s+%s\b.*$|^\*\*variant\s+%s\b" % (other, other), rest[10:])
             sect = rest[: (m2.start() + 10) if m2 else 2500][:2500].strip()
         conf = [l for l in logs.splitlines() if l.startswith("%s %s demo_clean" % (prop, var))]
         fired = sorted(k for k, v in (res or {}).items() if v[0] == 1)
         files = sorted(set(re.findall(r"^\+\+\+ b/(\S+)", open(os.path.join(d, "patch.diff")).read(), re.M)))
         meta = {
-            "id": sid, "breaks_property": prop, "variant": var, "files_changed": files, "round": {"A": 1, "B": 1, "C": 2, "D": 2, "E": 3, "F": 3, "G": 4, "H": 4, "I": 5, "J": 5, "K": 6, "L": 6, "M": 7, "N": 7}[var],
-            "reported_when_first_run_held_out": (sid not in ROUND2_MISSED_AT_FIRST) if var in "CD" else ((sid not in ROUND3_MISSED_AT_FIRST) if var in "EF" else ((sid not in ROUND4_MISSED_AT_FIRST) if var in "GH" else ((sid not in ROUND5_MISSED_AT_FIRST) if var in "IJ" else ((sid not in ROUND6_MISSED_AT_FIRST) if var in "KL" else ((sid not in ROUND7_MISSED_AT_FIRST) if var in "MN" else None))))),
+            "id": sid, "breaks_property": prop, "variant": var, "files_changed": files, "round": {"A": 1, "B": 1, "C": 2, "D": 2, "E": 3, "F": 3, "G": 4, "H": 4, "I": 5, "J": 5, "K": 6, "L": 6, "M": 7, "N": 7, "O": 8, "P": 8}[var],
+            "reported_when_first_run_held_out": (sid not in ROUND2_MISSED_AT_FIRST) if var in "CD" else ((sid not in ROUND3_MISSED_AT_FIRST) if var in "EF" else ((sid not in ROUND4_MISSED_AT_FIRST) if var in "GH" else ((sid not in ROUND5_MISSED_AT_FIRST) if var in "IJ" else ((sid not in ROUND6_MISSED_AT_FIRST) if var in "KL" else ((sid not in ROUND7_MISSED_AT_FIRST) if var in "MN" else ((sid not in ROUND8_MISSED_AT_FIRST) if var in "OP" else None)))))),
             "written_by": "independent sub-agent given only the property text and its own worktree (no access to /verif)",
             "mechanism_and_what_it_needs_to_manifest": sect or "see NOTES.md",
             "what_was_run": ["tools/confirm_seed.sh (fresh worktree of /repo HEAD): demo on the unmodified tree, demo with the patch applied, pinned test-suite with the patch applied",
